@@ -247,6 +247,7 @@ func runC19(c *kit.Ctx) {
 
 	// ---- R4 ---------------------------------------------------------------
 	closedErrorProducersAreFrozen(c)
+	abandonedLookupCanDeliver(c)
 	zkSessionIsClosed(c)
 
 	c.StartRule("R6", "Close acquires no mutex that is held across a blocking operation", 1)
